@@ -85,6 +85,23 @@ theorem C12_withEntry {α : Type} (cell : Nat → α) (d : List (Nat × List Nat
   simp only [withEntry, List.mem_map, Prod.mk.injEq]
   exact ⟨(k, ids), h, rfl, rfl⟩
 
+/-- **which concepts a language's dictionary has**: exactly those for which it has a row (what `get_score` tests with
+`concept not in dictA`) -/
+theorem C12_dictOfCol_key_iff (rows : List Row) (cols : List Nat) (hu : UniqueIds rows) (l j : Nat) (hj : cols.idxOf? l = some j)
+    (c : Nat) : (∃ ids, (c, ids) ∈ dictOfCol rows cols l) ↔ ∃ r ∈ rows, r.id ≠ 0 ∧ r.lang = l ∧ r.concept = c := by
+  constructor
+  · rintro ⟨ids, h⟩
+    simp only [dictOfCol, List.mem_map, Prod.mk.injEq] at h
+    obtain ⟨c', hc', rfl, _⟩ := h
+    rw [mem_keyOrder] at hc'
+    obtain ⟨v, hv, hcv⟩ := List.mem_map.mp hc'
+    obtain ⟨hv0, r, hr, rfl, hl⟩ := (C12_listOfCol rows cols l j v hj).mp hv
+    rw [conceptOfId_of_mem rows hu r hr] at hcv
+    exact ⟨r, hr, hv0, hl, hcv⟩
+  · rintro ⟨r, hr, h0, rfl, rfl⟩
+    obtain ⟨ids, h, _⟩ := C12_dictOfCol_keys rows cols hu r hr h0 j hj
+    exact ⟨ids, h⟩
+
 theorem keyOrder_nodup (xs : List Nat) : (keyOrder xs).Nodup := by
   unfold keyOrder
   have : ∀ (acc : List Nat), acc.Nodup →
